@@ -8,6 +8,7 @@ mod props;
 mod requests;
 mod sign;
 mod util;
+mod wire;
 mod world;
 
 use hist::{ParentCfg, Scenario, WorkerArgs};
@@ -37,6 +38,8 @@ fn other_check(id: &str, tier: &str, seed: u64) -> Option<i32> {
         "C04" => Some(props::c04::run(tier, seed)),
         "C09" => Some(props::c09::run(tier, seed)),
         "C11" => Some(props::c11::run(tier, seed)),
+        "C12" => Some(props::c12::run(tier, seed)),
+        "C20" => Some(props::c20::run(tier, seed)),
         _ => None,
     }
 }
@@ -116,6 +119,7 @@ fn main() {
                 std::process::exit(2);
             }
         }
+        "serve" => wire::serve_main(&args[2..]),
         "rwlock-probe" => props::c11::rwlock_probe_child(),
         "bench" => {
             inst::set_config("regtest", true);
